@@ -87,6 +87,21 @@ def main():
     if a.prop:
         muts = [m for m in muts if a.prop in m["props"]]
         for m in muts: m["props"] = [a.prop]
+        # refactorings are checked against every property in the full run; for one property keep those that touch a
+        # file this property is anchored in or that one of its seeded changes touched (the others cannot move its rules)
+        import re
+        files = set()
+        for line in open(os.path.join(VERIF, "properties.jsonl")):
+            d = json.loads(line)
+            if d.get("id") == a.prop:
+                files |= set(d.get("anchors", {}).get("files", []))
+        touched = lambda patch: set(re.findall(r"^\+\+\+ b/(\S+)", open(patch).read(), re.M))
+        for m in muts:
+            if m["kind"] == "patch" and m.get("expect") != "silent":
+                files |= touched(m["patch"])
+            elif m["kind"] == "edit":
+                files.add(m["file"])
+        muts = [m for m in muts if not (m["kind"] == "patch" and m.get("expect") == "silent" and not (touched(m["patch"]) & files))]
     results = []
     with cf.ThreadPoolExecutor(max_workers=a.jobs) as ex:
         for r in ex.map(lambda m: run_one(m, a.build, a.baseline), muts):
